@@ -34,6 +34,15 @@ pub fn model(c1c3c2: bool) -> Sm2Model {
 
 impl EncCase {
     pub fn msg(&self) -> Vec<u8> {
+        if self.msg_class & 0x0f == 4 {
+            // the message equals the KDF stream for the case's own (d, k): C2 = M xor t is then all zero (needs a fixed k)
+            if let Some(k) = &self.k {
+                let pk = r2::g_mul(&from_be(&self.d));
+                if let Some((x2, y2)) = r2::xy(&r2::params().curve.mul(&from_be(k), &pk)) {
+                    return rsm3::kdf(&[&x2[..], &y2[..]].concat(), self.msg_len);
+                }
+            }
+        }
         let mut m = match (self.msg_class & 0x0f) % 4 {
             1 => vec![0u8; self.msg_len],
             2 => vec![0xFF; self.msg_len],
@@ -206,6 +215,18 @@ pub fn run(ctx: &Ctx) {
     ctx.generated("generated_fixed_k", "proptest cases with injected nonce: exact ciphertext, independent decryption, round trip", ctx.tier.pick(1_000, 30_000), move || enc_case(true, maxlen), check_enc);
     ctx.generated("generated_library_rng", "proptest cases, nonce from the library's RNG: independent decryption, round trip", ctx.tier.pick(1_500, 30_000), move || enc_case(false, maxlen), check_enc);
     ctx.generated("reference_encrypted", "ciphertexts made by the reference encryptor decrypt under the library", ctx.tier.pick(1_000, 20_000), move || enc_case(true, 600), check_ref_enc);
+
+    ctx.exhaustive("message_equal_to_kdf_stream", "the message is chosen equal to t = KDF(x2||y2, |M|) for the case's own (d, k), so that C2 is all zero while t is not: every |M| in 1..=70 x 4 configurations: exact ciphertext, independent decryption, round trip; and the reference-made ciphertext decrypts", move || {
+        let n = &r2::params().n;
+        let mut v = Vec::new();
+        for len in 1..=70usize {
+            for cfg in 0..4u8 {
+                let s = seed ^ 0x2e55 ^ ((len as u64) << 8 | cfg as u64);
+                v.push(EncCase { d: gen::hex32(&(from_be(&expand_bytes(s ^ 1, 32)) % (n - 2u32) + 1u32)), msg_len: len, msg_seed: s, msg_class: 4 | ((len % 6) as u8) << 4, compressed: cfg & 1 == 1, c1c3c2: cfg & 2 == 2, k: Some(gen::hex32(&(from_be(&expand_bytes(s ^ 2, 32)) % (n - 1u32) + 1u32))) });
+            }
+        }
+        v
+    }, |c| { check_enc(c)?; check_ref_enc(c) });
 
     let two_byte = ctx.tier.pick(false, true);
     ctx.listed("crafted_zero_kdf", "one-byte (thorough: also two-byte) messages with a nonce k, found by walking k upwards with the reference, for which t = KDF(x2||y2, |M|) is all zero: GB/T 32918.4 step A5 sends the encryptor back to A1, so with candidates (k_bad, k_good) injected the ciphertext must be exactly the one for k_good (nothing of the abandoned attempt may leak into it); a one-byte message meets such a k once in 256 encryptions", move || {
